@@ -41,6 +41,14 @@ let h_inject c tot = match c with
 let h_oneshot t m = if t = "sha512pinned" then sha512_oneshot_pinned m else hash_oneshot (hash_of t) m
 let b01 s = s = "1"
 
+let exn_s = function InvalidArgument -> "throw:invalid_argument" | OverflowError -> "throw:overflow_error"
+  | RuntimeError -> "throw:runtime_error" | BadAlloc -> "throw:bad_alloc"
+let res_z = function Ok z -> "ok " ^ dec_of_z z | Throw e -> exn_s e
+let res_b = function Ok b -> "ok " ^ bool_s b | Throw e -> exn_s e
+let res_bytes = function Ok l -> "ok " ^ hx l | Throw e -> exn_s e
+let zd = z_of_dec
+let nd = n_of_dec
+
 let run toks =
   match toks with
   | ["cteq"; a; b] -> bool_s (ct_equals (bx a) (bx b))
@@ -82,6 +90,21 @@ let run toks =
   | "spec.hmaccat" :: t :: kms ->
       String.concat "," (List.map (fun km -> match split_on ':' km with
          | [k; m] -> hx (hMAC_spec (hash_of t) (bx k) (bx m)) | _ -> failwith "km") kms)
+  | ["hotp"; t; k; c; d] -> res_z (get_hotp_code (hash_of t) (bx k) (nd c) (zd d))
+  | ["spec.hotp"; t; k; c; d] -> "ok " ^ dec_of_n (hOTP_spec (hash_of t) (bx k) (nd c) (nd d))
+  | ["totpat"; t; k; ts; p; d] -> res_z (get_totp_code_at (hash_of t) (bx k) (nd ts) (zd p) (zd d))
+  | ["spec.totpat"; t; k; ts; p; d] -> "ok " ^ dec_of_n (tOTP_spec (hash_of t) (bx k) (nd ts) (nd p) (nd d))
+  | ["totpnow"; t; k; p; d; now; err; _step] -> res_z (get_totp_code (hash_of t) (bx k) (zd p) (zd d) (zd now, err <> "0"))
+  | ["hotpdg"; dg; d] -> res_z (hotp_from_digest (bx dg) (zd d))
+  | ["spec.hotpdg"; dg; d] -> "ok " ^ dec_of_n (N.modulo (dT (bx dg)) (N.pow ten (nd d)))
+  | ["totpvalid"; t; tok; k; ts; p; d] -> res_b (is_totp_token_valid_at (hash_of t) (zd tok) (bx k) (nd ts) (zd p) (zd d))
+  | ["spec.totpvalid"; t; tok; k; ts; p; d] ->
+      (* the window predicate of C07 written out over the spec *)
+      let c = N.div (nd ts) (nd p) in let code x = Z.of_N (hOTP_spec (hash_of t) (bx k) x (nd d)) in
+      let tk = zd tok in let maxc = N.sub (N.pow (n_of_int 2) (n_of_int 64)) (n_of_int 1) in
+      "ok " ^ bool_s (tk = code c || (c <> maxc && tk = code (N.add c (n_of_int 1))) || (c <> N0 && tk = code (N.sub c (n_of_int 1))))
+  | ["totpvalidnow"; t; tok; k; p; d; now; err; _step] ->
+      res_b (is_totp_token_valid_now (hash_of t) (zd tok) (bx k) (zd p) (zd d) (zd now, err <> "0"))
   | t :: _ -> failwith ("unknown op " ^ t)
   | [] -> ""
 
